@@ -170,7 +170,7 @@ def agree_with_physical_connectivity(base, var, s_idx0, s_idx1, tol):
         zs.append([x.impedance for x in m.sources])
         # the far field in a few directions is a functional of all currents
         ff = []
-        if m.power > 0:
+        if common.net_power_ok(m):
             for th, ph in ((20.0, 10.0), (60.0, 100.0), (85.0, 200.0), (40.0, 300.0)):
                 m.compute_far_field(A(th, 0, 1), A(ph, 0, 1))
                 ff += [complex(np.ravel(m.far_field.e_theta)[0]), complex(np.ravel(m.far_field.e_phi)[0])]
@@ -299,7 +299,7 @@ def check(case):
     if worst > tol:
         fails.append(('wire-end-currents' + suffix_(), 'wire-end currents at a junction of >= 3 ends differ by %.3g (tol %.2g)' % (worst, tol)))
     # far field, complex
-    if m0.power > 0 and m1.power > 0:
+    if common.net_power_ok(m0) and common.net_power_ok(m1):
         A = build.mm.Angle
         f0, f1 = [], []
         for th, ph in case['dirs']:
